@@ -24,12 +24,17 @@ var verifFuzzProgs = []verifTemplate{
 	{"arith-statements", "fn main() {\n  let s = A + B;\n  let d = A - B;\n  let m = A * K;\n  let q = (A - B) - (B - A);\n  println(s, d, m, q);\n  let t = A;\n  t += B;\n  t -= 3;\n  println(t);\n  let b = P && Q;\n  let o = P || Q;\n  let x = !P;\n  println(b, o, x);\n}\n"},
 	{"break-in-if-else", "fn main() {\n  for i in 0..4 {\n    if i == A { break; } else { println(\"a\", i); }\n    println(\"c\", i);\n  }\n  println(\"end\");\n}\n"},
 	{"continue-in-if-else", "fn main() {\n  let n = 0;\n  while n < 4 {\n    n += 1;\n    if n == C { continue; } else { println(\"w\", n); }\n    println(\"x\");\n  }\n  println(\"end\", n);\n}\n"},
+	{"global-initialisers", "let dozen = 3 * 4 == 12;\nlet other = 2 * 3 != 7;\nlet prod = 5 * 2;\nlet cmp = 10 - 4 < 3 * 3;\nlet txt = \"a\" + \"b\";\nfn main() {\n  println(dozen, other, prod, cmp, txt);\n}\n"},
 	{"none-literal", "fn main() {\n  let n: ?int = none;\n  println(n);\n}\n"},
 	{"null-literal", "fn f() -> null { return null; }\nfn main() {\n  f();\n  println(1);\n}\n"},
 }
 
 func VerifHarness_FuzzTransform() {
-	t := verifFuzzProgs[errors.VerifNdIntRange("template", 0, len(verifFuzzProgs)-1)]
+	ti := errors.VerifParam("only", -1) // a pinned template (explored with a larger budget of non-default draws)
+	if ti < 0 {
+		ti = errors.VerifNdIntRange("template", 0, len(verifFuzzProgs)-1)
+	}
+	t := verifFuzzProgs[ti]
 	passes := errors.VerifParam("passes", 1)
 	errors.VerifTag("template", t.name)
 	inputs := verifStdInputs()
